@@ -63,7 +63,7 @@ def functions():
                      "NetlistDriver.emit_value", "_compute_net_flows", "_compute_ports", "build_netlist")]
     out += [source.describe("amaranth/back/rtlil.py", q, arith="RTLIL text evaluated symbolically", bound="templates enumerated")
             for q in ("convert_fragment", "ModuleEmitter.emit_operator", "ModuleEmitter.shorten_operand", "ModuleEmitter.emit_part", "ModuleEmitter.emit_flip_flop",
-                      "ModuleEmitter.emit_assignment_list", "ModuleEmitter.emit_match", "ModuleEmitter.sigspec", "ModuleEmitter.emit_connects",
+                      "ModuleEmitter.emit_assignment_list", "ModuleEmitter.sigspec", "ModuleEmitter.emit_connects",
                       "ModuleEmitter.emit_submodules", "ModuleEmitter.emit_port_wires", "_const")]
     return out
 
